@@ -455,18 +455,22 @@ class C17(Prop):
                   'refuted on a computed witness (pinned open finding); the ids the drivers print are the specification\'s ids in '
                   'row-major order (C17_slice_read_ids); positionAndExtentInData for all u64 values (C17_in_data_spec).  C18, second '
                   'half: a request whose positions scale exactly to (s, e) returns what (s, e, dimension unit) returns, parametric in '
-                  'the factor (rescale_invariant, rescale_invariant_slice); getSIScaling is the quotient of the generated prefix '
+                  'the factor (rescale_invariant, rescale_invariant_slice, rescale_invariant_slice_partial for any number of given positions); getSIScaling is the quotient of the generated prefix '
                   'factors for all 21 x 21 prefix pairs (C18_si_scaling_fdiv); x * 1.0 = x.  Views: the constructor accepts exactly '
                   'the windows inside the array; a request with offset_d + count_d <= window_d over the integers is the array read at '
                   'origin + offset (view_read_is_array_read_at_origin_plus_offset), a write changes exactly the addressed cells and no '
                   'cell outside the window (view_write_frame), every other request - for ANY u64 offset and count, including sums that '
                   'wrap - is refused with OutOfBounds and transfers nothing (view_oob_rejected).  For the pinned code each statement '
-                  'fails on a computed witness (..._refuted) and the last theorem current_is_repaired is the open obligation.  The '
+                  'fails on a computed witness (..._refuted); the last theorem current_is_repaired ties the model driver to the repaired behaviour.  The '
                   'model is tied to the code by the correspondence run (model == implementation on every line, also for every single '
                   'patch with the matching switch); the extracted specification judges the implementation\'s answers.')
-    level_note = ('Assumed / trusted: the C07 position->index theorems for set, data-frame and range dimensions enter as hypotheses of '
-                  'exactly the shape of sampled_index_spec ([idx_spec]; discharged here for sampled dimensions from Axis/SampledProofs.v); '
-                  'axes are finite and non-decreasing ([axis_ok]; proved for sampled, integer and sorted tick axes); splitUnit\'s split '
+    level_note = ('The C07 position->index theorems (sampled_index_spec, set_index_spec, df_index_spec, range_index_spec) are USED, not '
+                  'assumed: slice_exact, slice_oob_rejected, C17_slice_meets_spec and slice_unspecified_full_inclusive are stated for '
+                  'well-formed descriptors ([dim_wf] = the premises of those theorems: sampled - finite offset, finite interval > 0, finite '
+                  'coordinates; range - at most 2^53+1 finite STRICTLY ascending ticks; set / data frame - at most 2^53 labels / rows) and '
+                  'admissible positions (converted into the dimension\'s unit they are finite, and below 2^52 on set / data-frame '
+                  'dimensions); slice_unspecified_full_inclusive additionally needs x_(n-1) < x_n after the last element on SAMPLED axes '
+                  '(proved for the other kinds) and n <= 2^52.  Assumed / trusted: splitUnit\'s split '
                   'of an atomic SI unit into prefix and base unit (C18); HDF5 hyperslab semantics as in Data/NDArr.v, plus: a hyperslab '
                   'whose end reaches 2^64 passes HDF5\'s own bound test (observed as a buffer overrun; only reachable through the wrapped '
                   'window test); x86-64 SSE2 doubles.  Conventions fixed in SliceSpec.v: a request with start = end is a point request '
@@ -486,7 +490,7 @@ class C17(Prop):
                        'tree) / empty count or offset / zero counts / rank mismatch, reads and writes interleaved with whole-array dumps.  '
                        'Non-trivial = the model returned data for at least one line; distinct = distinct case text')
     assumptions = ['a dimension\'s coordinates are the doubles its descriptor yields (sampled: fl(fl(i*interval)+offset), range: the ticks, set / data frame: the index)',
-                   'the C07 index theorems hold for set / data-frame / range dimensions in the shape of sampled_index_spec (hypothesis idx_spec)',
+                   'descriptors are well formed in the sense of the C07 theorems (dim_wf) and converted positions are finite, below 2^52 on set / data-frame dimensions (pos_ok)',
                    'start = end denotes a point request (closed interval in both modes)',
                    'prefix factors: the binary64 literals of PREFIX_FACTORS (generated table); pow() is not called for units without a power',
                    'a set dimension without labels / a data-frame dimension over a frame without rows is an unbounded integer axis (as in C07)',
